@@ -50,9 +50,9 @@ def facts(ctx):
         raise TieBroken(f"srcfacts: certId hash algorithms changed: {algs}")
     c = common.strip_tests(common.src("sdk/src/crypto/cose/ocsp.rs"))
     cb = common.fn_body(c, r"pub fn check_ocsp_status\s*\(", "check_ocsp_status")
-    shape = [r"certificate_status_should_override\s*\.unwrap_or\(false\)", r"match get_ocsp_der\(sign1\)", r"ocsp_log\.has_status\(validation_status::SIGNING_CREDENTIAL_REVOKED\)",
+    shape = [r"certificate_status_should_override\s*\.unwrap_or\(false\)", r"if let Some\(ocsp_response_der\) = get_ocsp_der\(sign1\)", r"ocsp_log\.has_status\(validation_status::SIGNING_CREDENTIAL_REVOKED\)",
              r"CertificateTrustError::CertificateNotTrusted", r"ocsp_log\.has_status\(validation_status::SIGNING_CREDENTIAL_NOT_REVOKED\)",
-             r"Ok\(OcspResponse::default\(\)\)", r"OcspFetchPolicy::FetchAllowed =>", r"OcspFetchPolicy::DoNotFetch =>"]
+             r"errors mean we don't interpret the value: fall through", r"OcspFetchPolicy::FetchAllowed =>", r"OcspFetchPolicy::DoNotFetch =>"]
     pos = -1
     for s in shape:
         mm = re.compile(s).search(cb, pos + 1)
@@ -61,6 +61,7 @@ def facts(ctx):
         pos = mm.start()
     sb = common.fn_body(c, r"fn check_stapled_ocsp_response\s*\(", "check_stapled_ocsp_response")
     for must, what in ((r"new_ctp\.clear_ekus\(\);\s*new_ctp\.add_valid_ekus\(OCSP_OID_STR\.as_bytes\(\)\)", "responder EKU restriction"),
+                       (r"if !has_ocsp_signing_eku\(first_cert\) \{\s*return Ok\(OcspResponse::default\(\)\);", "explicit id-kp-OCSPSigning requirement (fix b2c9a9e81)"),
                        (r"OcspResponse::from_der_checked\(\s*ocsp_response_der,\s*&signing_cert_chain,\s*signing_time,", "binding to the signer's chain"),
                        (r"extend_ocsp_cert_chain\(ocsp_certs, &signing_cert_chain\)", "responder path completion"),
                        (r"validation_log\.append\(&current_validation_log\);\s*Ok\(ocsp_data\)", "log appended for usable responses only")):
@@ -73,13 +74,14 @@ def facts(ctx):
     if not re.search(r"check_ocsp_status\(\s*&sign1,\s*data,\s*ctp,\s*svi\.certificate_statuses\.get\(&certificate_serial_num\),\s*svi\.timestamps\.get\(claim\.label\(\)\),\s*validation_log,\s*context,\s*\)\?;", vb):
         raise TieBroken("srcfacts: verify_claim no longer aborts on check_ocsp_status errors")
     sr = common.src("sdk/src/store.rs")
-    if not re.search(r"let signing_cert_chain = found_claim\s*\.cose_sign1\(\).*?OcspResponse::from_der_checked\(\s*ocsp_der,\s*&signing_cert_chain,\s*None,", sr, re.S):
-        raise TieBroken("srcfacts: store.rs binding of certificate-status assertions changed")
+    if not re.search(r"for ocsp_der in certificate_status_assertion\.as_ref\(\) \{\s*for candidate in svi\.manifest_map\.values\(\) \{\s*let signing_cert_chain = candidate\s*\.cose_sign1\(\)"
+                     r".*?OcspResponse::from_der_checked\(\s*ocsp_der,\s*&signing_cert_chain,\s*None,\s*&mut bind_log,\s*\) \{\s*if !response\.certificate_serial_num\.is_empty\(\)", sr, re.S):
+        raise TieBroken("srcfacts: store.rs binding of certificate-status assertions changed (expected: bound to the manifest the response names)")
     out = ("(* generated from sdk/src/crypto/ocsp/mod.rs, cose/ocsp.rs on every run — do not edit *)\n"
            "From Coq Require Import ZArith.\n"
            f"Definition NO_NEXT_UPDATE_GRACE : Z := {grace}%Z.\n"
-           "(* store.rs binds a certificate-status assertion to the chain of the claim that carries it *)\n"
-           "Definition ASSERTION_BOUND_TO_CARRIER : bool := true.\n")
+           "(* store.rs binds a certificate-status assertion to the chain of the manifest whose signer it names (fix 0aa703aa5) *)\n"
+           "Definition ASSERTION_BOUND_TO_CARRIER : bool := false.\n")
     common.write_if_changed(os.path.join(common.COQ, "Generated", "C37_facts.v"), out)
     ctx.facts37 = {"grace": grace}
 
@@ -337,18 +339,26 @@ def model_expr(c, now):
     st = "None" if c["token"] is None else f"(Some ({P.ep(c['token'])}))"
     cf = f"{{| cf_override := {b(c['override'] is True)}; cf_fetch := {b(c['route'] == 'fetch')} |}}"
     if c["route"] == "asserted":
-        # the active claim B: its own staple (ocsp2), and the served response if the assertion reaches B's serial
+        # both claims of the store: the parent A (signer 77, its own staple) and the active claim B (cred2, staple ocsp2);
+        # the served response reaches a claim if it names that claim's signer (store.rs after fix 0aa703aa5)
         served = unopt(coq_response(c["serve"], now))
-        carrier = CHAIN if c["cred2"] == "same" else CHAIN_OTHER
-        target = 77 if c["cred2"] == "same" else 78
+        rec_a, rec_b = CHAIN[len("(Some "):-1], (CHAIN if c["cred2"] == "same" else CHAIN_OTHER)[len("(Some "):-1]
+        tb = 77 if c["cred2"] == "same" else 78
         cfb = "{| cf_override := false; cf_fetch := false |}"
-        return (f"let r := {served} in let sup := if assertion_supplies toyIH toyVerifyR {carrier} r {target}%N {now} then [r] else [] in "
-                f"check_ocsp_status {ORACLES} {cfb} {coq_response(c['ocsp2'], now)} sup None {carrier} None {now}")
+        sup = lambda t: f"(if assertion_supplies toyIH toyVerifyR [{rec_a}; {rec_b}] r {t}%N {now} then [r] else [])"
+        return (f"let r := {served} in "
+                f"(check_ocsp_status {ORACLES} {cfb} {coq_response(c['ocsp'], now)} {sup(77)} None (Some {rec_a}) None {now}, "
+                f"check_ocsp_status {ORACLES} {cfb} {coq_response(c['ocsp2'], now)} {sup(tb)} None (Some {rec_b}) None {now})")
     fetched = coq_response(c["serve"], now) if c["route"] == "fetch" else "None"
     return f"check_ocsp_status {ORACLES} {cf} {coq_response(c['ocsp'], now)} [] {fetched} {CHAIN} {st} {now}"
 
 
 def model_view(term):
+    if len(term) == 3:          # asserted route: ((parent claim), (active claim)) printed as (s, l, (s', l')); the read fails if either check fails
+        a, bb = model_view((term[0], term[1])), model_view(term[2])
+        if not (a["survives"] and bb["survives"]):
+            return {"survives": False, "codes": ["OcRevoked"]}
+        return {"survives": True, "codes": sorted(set(a["codes"] + bb["codes"]))}
     status, codes = term
     return {"survives": not (status == "StatusRevoked"), "codes": sorted(codes if isinstance(codes, list) else [])}
 
